@@ -43,6 +43,9 @@ CHECKS = {
  "C13": ("runtime round-trip monitor over all generated models discovered by scanning the tree, unknown-element insertion at every boundary, byte comparison of regenerated code",
          "All generated models (79 today, rediscovered at check time from zz_generated.go + definition files) are exercised with type-directed values: announced length and wire plan vs bytes produced, strict TLV walk, Parse(Encode(v)) == v contiguous and segmented, unknown non-critical/critical element at every top-level boundary; and the generator is rebuilt from the tree and its output compared byte-for-byte with every checked-in zz_generated.go.",
          "Signature-valued fields are left empty here (covered by C03/C12); unexported marker fields are not compared; reflection reads the encoder's unexported length/wirePlan.", "5/C13"),
+ "C16": ("Go race detector over concurrent table-client and real-pipeline workloads (reports parsed, deduplicated by innermost repository frame pair, filtered to the shared-table code) + porcupine linearizability checking of recorded client histories + survival/deadlock watchdog",
+         "Children are built with -race: 2..16 goroutines (GOMAXPROCS 2/4/16) register/unregister routes, tear faces down, edit FIB/strategies, list and look up like a forwarding thread (copy, sort by cost, read) on both FIBs; 4 real forwarding threads process Interests while tables are mutated; 2-4 clients record call/return-stamped histories that porcupine checks against a sequential flattening+LPM model including the final lookups. A race report with a side in fw/table, fw/face/table.go, fw/dispatch or the NLSR readvertiser, a crash, a 60 s stall or a non-linearizable history is a violation.",
+         "Interleavings are sampled, not enumerated; race reports on statistics counters / harness / core.ShouldQuit are listed as out of scope in the evidence; porcupine timeout would be inconclusive.", "5/C16"),
  "C20": ("reference-model monitor on a real basic.Engine over a harness face and a harness-owned virtual clock; per-Interest callback log checked against a pending-Interest model at every event",
          "Histories of EXPRESS/DATA/NACK/ADVANCE/ATTACH/DETACH/INCOMING/REPLY events (nested names with duplicates, CanBePrefix, implicit digests right and wrong, lifetimes 100 ms..4 s, clock advances across lifetime+margin boundaries): each callback at most once during and exactly once by the end, Data results only from satisfying Data, every unexpired pending Interest a Data satisfies resolved in that event, Nack only for exactly that name, timeouts never early and delivered by lifetime+margin, longest-prefix handler dispatch, Reply iff now <= deadline. ~2.4x10^4 (quick) / 6.4x10^5 (thorough) histories.",
          "Virtual ndn.Timer and face are harness code (internal/simeng); callbacks only record.", "5/C20"),
